@@ -44,3 +44,20 @@ _reg0 = register
 def register(reg):
     _reg0(reg)
     register_c11(reg)
+
+
+def register_c09(reg):
+    L = reg.contract
+    L("lemma:c09_accepts_the_secret", params={"p": "str|bytes", "alg": "hashalg"}, props=("C09",))
+    L("lemma:c09_rejects_another_secret", params={"p": "str|bytes", "q": "str|bytes", "alg": "hashalg"}, props=("C09",),
+      requires={"different-secrets": "as_bytes(p) != as_bytes(q)"},
+      assumes={"A.collision-free": "forall('s:bytes', 'implies(hash_of(alg, s + as_bytes(p)) == hash_of(alg, s + as_bytes(q)), s + as_bytes(p) == s + as_bytes(q))')"})
+    L("lemma:c09_two_assignments_two_salts", params={"p": "str|bytes", "alg": "hashalg"}, props=("C09",))
+
+
+_reg1 = register
+
+
+def register(reg):
+    _reg1(reg)
+    register_c09(reg)
